@@ -103,8 +103,9 @@ def field_ok(v, decimals=2, width=10):
 
 def precondition(snap):
     """The quantifier's side conditions, on the geometry about to be written (own arithmetic):
-    coordinates within the ten-column limit in file units; surfaces either equal to a layer
-    bottom or clear of it by more than the two decimals of the file can blur."""
+    coordinates within the ten-column limit in file units; no column surface so close to a layer
+    bottom that cutting both to the two decimals of the file changes their order (that would
+    change which blocks exist)."""
     s = snap['header']['unit_scale']
     for name, x, y in snap['nodes']:
         if not (field_ok(x / s) and field_ok(y / s)):
@@ -123,11 +124,18 @@ def precondition(snap):
         for p in pos:
             if not all(field_ok(v / s, 1) for v in p):
                 return 'well coordinate beyond the 10-column field'
-    bottoms = [l[1] for l in snap['layers']]
+    # which layers a column has (surface above the layer bottom) must not depend on the two decimals
+    def two(v):
+        return float('%.2f' % (v / s))
+    bottoms = [(l[1], two(l[1])) for l in snap['layers']]
+    seen = {}
     for c in snap['columns']:
-        for b in bottoms:
-            if c['surface'] != b and abs(c['surface'] - b) / s < 0.0101:
-                return 'surface within 0.01 file units of a layer bottom'
+        v = c['surface']
+        if v not in seen:
+            v2 = two(v)
+            seen[v] = all((v > b) == (v2 > b2) for b, b2 in bottoms)
+        if not seen[v]:
+            return 'a surface and a layer bottom change order when cut to two decimals'
     return None
 
 
